@@ -13,6 +13,7 @@ TASK = 'django_evolution/evolve/evolve_app_task.py'
 PURGE = 'django_evolution/evolve/purge_app_task.py'
 EVBASE = 'django_evolution/evolve/base.py'
 
+RUNMOD = ['SQLExecutor._latest_transaction', 'AtomicCM.using', 'tx', 'tx_db', 'exec_n', 'failed', 'failed_stmt']
 EXC = K.Opt(K.Atom('ExcInfo'))
 PARAMS = K.Opt(K.Atom('Params'))
 STMT = K.Tuple(K.Str, PARAMS)
@@ -116,11 +117,14 @@ def build():
         'SQLExecutor.ensure_transaction', module=SQLPY, serves=['C07'],
         params={'self': K.Ref('SQLExecutor')},
         requires=[INV, 'tx != TXERROR', 'implies(tx == INTX, tx_db == self._database)'],
+        modifies=['SQLExecutor._latest_transaction', 'tx', 'tx_db', 'AtomicCM.using'],
         ensures=[INV, 'tx == INTX', 'tx_db == self._database'])
     w.contract(
         'SQLExecutor.__enter__', module=SQLPY, serves=['C07'],
         params={'self': K.Ref('SQLExecutor')}, returns=K.Ref('SQLExecutor'),
-        requires=[INV], modifies=[],
+        requires=[INV],
+        modifies=['SQLExecutor._constraints_disabled[self]', 'SQLExecutor._cursor[self]',
+                  'SQLExecutor._evolver_backend[self]'],
         ensures=[INV, 'result is self', 'self._cursor is not None', 'self._evolver_backend is not None',
                  'tx == old(tx)'])
     w.contract(
@@ -157,7 +161,7 @@ def build():
         requires=[INV, 'tx != TXERROR', 'self._cursor is not None', 'self._evolver_backend is not None',
                   'not failed', 'implies(tx == INTX, tx_db == self._database)'],
         locals={'out_sql': K.Seq(K.Str), 'statement': K.Opt(K.Str), 'params': PARAMS},
-        raises={'Exception': True},
+        raises={'Exception': True}, modifies=RUNMOD,
         exc_fields={'last_sql_statement': K.Tuple(K.Opt(K.Str), PARAMS)},
         abstract={"if capture:\n                        if params:":
                   ["if capture:\n    out_sql = out_sql + [render_sql(statement, params)]"],
@@ -280,6 +284,8 @@ def add_run_contracts(w):
         requires=['life == IDLE', 'saved == 0', 'len(recorded) == 0', 'not exec_failed', 'not exec_after_save'],
         locals={'new_evolutions': K.Seq(ROW)},
         raises={'EvolutionException': True, 'Exception': True},
+        modifies=['Evolver._tasks_prepared', 'Evolver.evolved[self]', 'Evolver.version', 'EvolutionRow.version',
+                  'life', 'saved', 'recorded', 'exec_failed', 'exec_after_save'],
         invariants={
             1: LoopInv('for task_cls, tasks in six.iteritems(self._tasks_by_class):', index='ci',
                        clauses=['life == EVOLVING', 'saved == 0', 'len(recorded) == 0', 'not exec_failed',
@@ -349,7 +355,7 @@ def add_signal_glue(w):
         'MigrationExecutor._on_progress', module=MIG, serves=['C17'],
         params={'self': K.Ref('MigrationExecutor'), 'action': K.Str, 'migration': K.Opt(K.Atom('Migration')),
                 'args': None, 'kwargs': None}, vararg='args', kwarg='kwargs',
-        defaults={'migration': None},
+        defaults={'migration': None}, modifies=['mig_applying', 'mig_applied'],
         ensures=[
             # Django reports apply_start / apply_success around each migration: each becomes exactly one signal
             "implies(action == 'apply_start', len(mig_applying) == len(old(mig_applying)) + 1 and "
@@ -360,16 +366,19 @@ def add_signal_glue(w):
             "        mig_applied == old(mig_applied) and mig_applying == old(mig_applying))"])
     w.ghost_var('_evolve_lock', K.Int)
     w.contract('_on_evolving', module=MGMT, serves=['C17'], params={'kwargs': None}, kwarg='kwargs',
-               ensures=['_evolve_lock == old(_evolve_lock) + 1'])
+               modifies=['_evolve_lock'], ensures=['_evolve_lock == old(_evolve_lock) + 1'])
     w.contract('_on_evolving_done', module=MGMT, serves=['C17'], params={'kwargs': None}, kwarg='kwargs',
-               ensures=['_evolve_lock == old(_evolve_lock) - 1'])
+               modifies=['_evolve_lock'], ensures=['_evolve_lock == old(_evolve_lock) - 1'])
 
 
 def add_task_contracts(w, ROW):
+    SIGMOD = ['creating_n', 'created_n', 'applying_n', 'applied_n', 'applied_ok', 'creating_log', 'created_log', 'applying_payload']
     RUNPRE = ["sql_executor is not None",
               "iff(some(sql_executor)._latest_transaction is not None, tx == INTX)", "tx != TXERROR",
               "some(sql_executor)._cursor is not None", "some(sql_executor)._evolver_backend is not None",
               "not failed", "implies(tx == INTX, tx_db == some(sql_executor)._database)"]
+    RUNPOST = ["iff(some(sql_executor)._latest_transaction is not None, tx == INTX)", "tx != TXERROR",
+               "implies(tx == INTX, tx_db == some(sql_executor)._database)", "not failed"]
     ERRPOST = ["raised('EvolutionExecutionError') or raised('AssertionError')",
                # the reported error identifies the failing statement
                "implies(raised('EvolutionExecutionError'), has_exc_attr('last_sql_statement'))",
@@ -379,14 +388,15 @@ def add_task_contracts(w, ROW):
         'EvolveAppTask._apply_deferred_sql', module=TASK, serves=['C07'],
         params={'cls': None, 'sql_executor': K.Opt(K.Ref('SQLExecutor')), 'evolver': K.Ref('Evolver'),
                 'sql': K.Seq(SQL)},
-        returns=K.Seq(K.Str), requires=RUNPRE[1:],
+        returns=K.Seq(K.Str), requires=RUNPRE[1:], modifies=RUNMOD,
         raises={'EvolutionExecutionError': True, 'AssertionError': True},
-        ensures=['not failed'], ensures_exc=ERRPOST)
+        ensures=RUNPOST, ensures_exc=ERRPOST)
     w.contract(
         'EvolveAppTask._create_models', module=TASK, serves=['C07', 'C17'],
         params={'cls': None, 'sql_executor': K.Opt(K.Ref('SQLExecutor')), 'evolver': K.Ref('Evolver'),
                 'tasks': K.Seq(K.Ref('EvolveAppTask')), 'sql': K.Seq(SQL)},
         returns=K.Seq(K.Str), requires=RUNPRE[1:],
+        modifies=RUNMOD + ['creating_n', 'created_n', 'creating_log', 'created_log'],
         raises={'EvolutionExecutionError': True, 'AssertionError': True},
         invariants={
             1: LoopInv('for task in tasks:', index='i', clauses=[
@@ -409,8 +419,7 @@ def add_task_contracts(w, ROW):
             'forall(range(len(tasks)), lambda a: sel(creating_log, len(old(creating_log)) + a) == '
             '       (sel(tasks, a).app_label, sel(tasks, a).new_model_names))',
             'forall(range(len(tasks)), lambda a: sel(created_log, len(old(created_log)) + a) == '
-            '       (sel(tasks, a).app_label, sel(tasks, a).new_model_names))',
-            'not failed'],
+            '       (sel(tasks, a).app_label, sel(tasks, a).new_model_names))'] + RUNPOST,
         ensures_exc=ERRPOST + ['created_n == old(created_n)'])
     w.contract(
         'EvolveAppTask.execute', module=TASK, serves=['C07', 'C17'],
@@ -419,15 +428,15 @@ def add_task_contracts(w, ROW):
                 'evolutions': K.Opt(K.Seq(ROW)), 'create_models_now': K.Bool},
         defaults={'cursor': None, 'sql_executor': None, 'sql': None, 'evolutions': None,
                   'create_models_now': False},
-        requires=RUNPRE[1:] + ['applied_ok'],
+        requires=RUNPRE[1:] + ['applied_ok'], modifies=RUNMOD + SIGMOD,
         raises={'EvolutionExecutionError': True, 'AssertionError': True},
         ensures=[
             'applying_n - old(applying_n) == applied_n - old(applied_n)', 'applying_n <= old(applying_n) + 1',
             'applied_ok',
             # the signal carries the evolutions the caller named for this SQL (or the task's own list)
             'implies(applying_n > old(applying_n) and evolutions is not None, applying_payload == some(evolutions))',
-            'implies(applying_n > old(applying_n) and evolutions is None, applying_payload == old(self.new_evolutions))',
-            'not failed'],
+            'implies(applying_n > old(applying_n) and evolutions is None, applying_payload == old(self.new_evolutions))']
+        + RUNPOST,
         ensures_exc=ERRPOST + ['applied_n == old(applied_n)', 'applying_n <= old(applying_n) + 1'])
     w.cls('PurgeAppTask', {'app_label': K.Str}, bases=['BaseEvolutionTask'], module=PURGE)
     w.contract(
@@ -435,9 +444,9 @@ def add_task_contracts(w, ROW):
         params={'self': K.Ref('PurgeAppTask'), 'cursor': K.Opt(K.Atom('LegacyCursor')),
                 'sql_executor': K.Opt(K.Ref('SQLExecutor'))},
         defaults={'cursor': None, 'sql_executor': None}, kwarg='kwargs',
-        requires=RUNPRE[1:],
+        requires=RUNPRE[1:], modifies=RUNMOD,
         raises={'EvolutionExecutionError': True, 'AssertionError': True},
-        ensures=['not failed'], ensures_exc=ERRPOST)
+        ensures=RUNPOST, ensures_exc=ERRPOST)
     w.contracts['PurgeAppTask.execute'].params['kwargs'] = None
 
 
